@@ -66,8 +66,10 @@ def purge_suite(ctx, vh):
 
     def evaluate(rows, tag):
         terms = [purge_term(r) for r in rows]
-        return (ctx.coq_eval_cases("purge_oracle" + tag, HDR, terms, "poracle", shard=500),
-                ctx.coq_eval_cases("purge_agree" + tag, HDR, terms, "pagree", shard=500))
+        if not ctx.coq_eval_cases("purge_both" + tag, HDR, terms, "pboth", shard=700):
+            return [], []
+        return (ctx.coq_eval_cases("purge_oracle" + tag, HDR, terms, "poracle", shard=700),
+                ctx.coq_eval_cases("purge_agree" + tag, HDR, terms, "pagree", shard=700))
 
     bad_o, bad_a = evaluate(rows, "")
     suspects = sorted(set(bad_o) | set(bad_a))
@@ -207,8 +209,10 @@ def live_suite(ctx, vh, name, mode, mk_cases):
         return
     cases = mk_cases(rows)
     terms = [c[0] for c in cases]
-    bad_o = ctx.coq_eval_cases(name + "_oracle", HDR, terms, "loracle", shard=300)
-    bad_a = ctx.coq_eval_cases(name + "_agree", HDR, terms, "lagree", shard=300)
+    bad_o = bad_a = []
+    if ctx.coq_eval_cases(name + "_both", HDR, terms, "lboth", shard=700):
+        bad_o = ctx.coq_eval_cases(name + "_oracle", HDR, terms, "loracle", shard=700)
+        bad_a = ctx.coq_eval_cases(name + "_agree", HDR, terms, "lagree", shard=700)
     suspects = [i for i in sorted(set(bad_o) | set(bad_a)) if cases[i][3] is not None]
     if suspects:
         # expectations far from the boundary rest on timing; a stalled machine can move a scenario across
